@@ -135,6 +135,25 @@ pub fn ignorable_chunk(rng: &mut Rng) -> ChunkSpec {
     }
 }
 
+/// Pad frame `frame` of `spec` with empty ignorable chunks (mask / path / cel-extra kinds without payload) up to
+/// `total` chunks. `tail_keep` chunks at the end of the frame stay behind the padding (so that they sit beyond
+/// chunk index `total - tail_keep`); the rest of the padding position is drawn at random.
+pub fn pad_frame(spec: &mut FileSpec, frame: usize, total: usize, tail_keep: usize, rng: &mut Rng) {
+    let cur = spec.frames[frame].chunks.len();
+    if cur >= total {
+        return;
+    }
+    let need = total - cur;
+    let hi = cur - tail_keep.min(cur);
+    let pos = if tail_keep > 0 { hi } else { rng.usize_below(cur + 1) };
+    let fill: Vec<ChunkItem> = (0..need).map(|k| ChunkSpec::Ignorable { ty: [0x2016u16, 0x2017, 0x2006][k % 3], data: vec![] }.into()).collect();
+    spec.frames[frame].chunks.splice(pos..pos, fill);
+    // (0xFFFF, n) is the only spelling of a count above 65535
+    if total > 0xFFFF {
+        spec.frames[frame].count_style = CountStyle::NewOnly;
+    }
+}
+
 pub struct Compiled {
     pub spec: FileSpec,
 }
@@ -273,6 +292,11 @@ pub fn compile_with(sp: &Sprite, rng: &mut Rng, v: &Variation, palprog: &Palette
             let mut reserved = [0u8; 7];
             if v.junk {
                 reserved.copy_from_slice(&rng.bytes(7));
+                if rng.chance(1, 2) {
+                    // the first reserved word became a signed z-index in later format versions: small values
+                    // make "layer + z" coincide between cels of one frame
+                    reserved[..2].copy_from_slice(&(rng.range(-3, 3) as i16).to_le_bytes());
+                }
             }
             let storage = match c.content {
                 CelContentM::Image { .. } => storage_choice(rng, v),
@@ -363,12 +387,19 @@ pub fn compile_with(sp: &Sprite, rng: &mut Rng, v: &Variation, palprog: &Palette
                 // n = 0: (0xFFFF, 0) would mean 65535 chunks
                 fr.count_style = CountStyle::Both;
             }
-            if fr.chunks.len() >= 0xFFFF {
+            if fr.chunks.len() > 0xFFFF {
                 fr.count_style = CountStyle::NewOnly;
             }
         }
         if v.junk {
             fr.reserved = rng.u32() as u16;
+            // undefined bits of user-data flag words
+            for c in fr.chunks.iter_mut() {
+                if matches!(c.spec, ChunkSpec::UserData(_)) && rng.chance(1, 2) {
+                    let r = rng.u32();
+                    c.flag_junk = *rng.pick(&[0x8u32, 0x10, 0x100, 0x8000_0000, 0xffff_fff8, r]) & !7;
+                }
+            }
         }
     }
     let trailer = if v.trailer { let n = *rng.pick(&[1usize, 2, 5, 16, 100]); rng.bytes(n) } else { vec![] };
